@@ -50,6 +50,7 @@ pub struct OpW {
     pub handle: u32,
     pub hot_gets: u32,
     pub read_queue_probe: u32,
+    pub warm_all: u32,
 }
 
 impl Default for OpW {
@@ -77,6 +78,7 @@ impl Default for OpW {
             handle: 2,
             hot_gets: 0,
             read_queue_probe: 0,
+            warm_all: 0,
         }
     }
 }
@@ -106,6 +108,8 @@ pub struct Profile {
     /// occasionally use a mid-sized capacity (300..2000) that is first filled with several
     /// hundred unit-weight entries (more than one eviction batch), with weights up to the capacity
     pub mid: bool,
+    /// occasionally 24..48 keys with capacities 16..64
+    pub big_universe: bool,
 }
 
 pub fn profile_for(prop: &str, thorough: bool) -> Profile {
@@ -126,6 +130,7 @@ pub fn profile_for(prop: &str, thorough: bool) -> Profile {
         huge_burst: prop == "C08",
         burst_gets_only: matches!(prop, "C12" | "C13"),
         mid: matches!(prop, "C03" | "C04" | "C08" | "C10"),
+        big_universe: matches!(prop, "C12" | "C13" | "C08"),
     };
     match prop {
         "C01" => {
@@ -176,6 +181,7 @@ pub fn profile_for(prop: &str, thorough: bool) -> Profile {
             p.w.contains = 12;
         }
         "C07" => {
+            p.w.advance_to = 10;
             p.w.burst = 1;
             p.burst_sizes = vec![130, 600];
             p.w.fresh_lookup = 4;
@@ -188,6 +194,7 @@ pub fn profile_for(prop: &str, thorough: bool) -> Profile {
         }
         "C08" => {
             p.w.burst = 2;
+            p.w.warm_all = 1;
             p.burst_sizes = vec![70, 130, 600];
             p.w.enter_beyond = 8;
             p.max_ops = if thorough { 300 } else { 60 };
@@ -214,6 +221,7 @@ pub fn profile_for(prop: &str, thorough: bool) -> Profile {
             p.w.enter_beyond = 7;
         }
         "C12" | "C13" => {
+            p.w.warm_all = 2;
             p.w.burst = 2;
             p.burst_sizes = vec![700, 1400];
             p.w.hot_gets = 1;
@@ -304,6 +312,8 @@ pub enum RawOp {
     Handle { sel: u8 },
     /// many gets of one key in a row (enough of them cross an aging step of the sketch)
     HotGets { k: u16, n: u8 },
+    /// every key of the universe is looked up n times (many popular residents at once)
+    WarmAll { n: u8 },
     /// sync(); about one read-queue flush point of gets of `k2` with no sync in between; step the
     /// clock to the deadline of `k`; get(k)
     ReadQueueProbe { k: u16, k2: u16, n: u8, which: bool },
@@ -384,6 +394,7 @@ fn raw_op(w: &OpW) -> BoxedStrategy<RawOp> {
     add(w.debug_fmt, Just(RawOp::DebugFmt).boxed());
     add(w.handle, any::<u8>().prop_map(|sel| RawOp::Handle { sel }).boxed());
     add(w.hot_gets, (any::<u16>(), any::<u8>()).prop_map(|(k, n)| RawOp::HotGets { k, n }).boxed());
+    add(w.warm_all, any::<u8>().prop_map(|n| RawOp::WarmAll { n }).boxed());
     add(w.read_queue_probe, (any::<u16>(), any::<u16>(), any::<u8>(), any::<bool>()).prop_map(|(k, k2, n, which)| RawOp::ReadQueueProbe { k, k2, n, which }).boxed());
     add(w.insert_batch, (any::<[(u16, u8); 4]>(), any::<u8>()).prop_map(|(items, n)| RawOp::InsertBatch { items, n }).boxed());
     add(w.iter_advance, (any::<u8>(), any::<u8>()).prop_map(|(after, sel)| RawOp::IterAdvance { after, sel }).boxed());
@@ -403,7 +414,10 @@ fn weight_table(cap: Option<u64>) -> Vec<u32> {
 
 pub fn build_case(p: &Profile, rc: RawCfg, raw_ops: Vec<RawOp>) -> Case {
     let kind = p.kinds[idx(rc.kind_sel as u32, 256, p.kinds.len() as u32) as usize];
-    let nkeys = 1 + idx(rc.nkeys as u32, 65536, p.max_keys);
+    // occasionally a larger universe with a capacity to match (dozens of residents in the
+    // victim prefix of a heavy newcomer)
+    let big = p.big_universe && rc.nkeys % 8 == 3;
+    let nkeys = if big { 24 + idx(rc.nkeys as u32, 65536, 25) } else { 1 + idx(rc.nkeys as u32, 65536, p.max_keys) };
     let hasher = [HasherKind::Sip, HasherKind::Sip, HasherKind::Identity, HasherKind::Collide][idx(rc.hasher as u32, 256, 4) as usize];
     let weigher = if rc.weigher < 110 { WeigherKind::None } else { WeigherKind::Value };
     let plain_sync = p.sync_plain && kind == Kind::Sync;
@@ -425,7 +439,7 @@ pub fn build_case(p: &Profile, rc: RawCfg, raw_ops: Vec<RawOp>) -> Case {
 
     // provisional capacity for the weight table (final value may depend on the ops)
     let small_caps: [u64; 12] = [0, 1, 1, 2, 2, 3, 3, 4, 5, 8, 16, 64];
-    let small = small_caps[idx(rc.cap_small as u32, 256, small_caps.len() as u32) as usize];
+    let small = if big { [16u64, 24, 32, 48, 64][idx(rc.cap_small as u32, 256, 5) as usize] } else { small_caps[idx(rc.cap_small as u32, 256, small_caps.len() as u32) as usize] };
     let cap_mode = match p.cap {
         CapMode::Mixed => {
             if rc.cap_sel < 128 {
@@ -593,6 +607,14 @@ pub fn build_case(p: &Profile, rc: RawCfg, raw_ops: Vec<RawOp>) -> Case {
                     push(&mut ops, Op::Get { k });
                 }
             }
+            RawOp::WarmAll { n } => {
+                let n = [1usize, 3, 16][idx(n as u32, 256, 3) as usize];
+                for k in 0..nkeys {
+                    for _ in 0..n {
+                        push(&mut ops, Op::Get { k });
+                    }
+                }
+            }
             RawOp::ReadQueueProbe { k, k2, n, which } => {
                 ops.push(Op::Sync);
                 let n = [63usize, 64, 65, 100][idx(n as u32, 256, 4) as usize];
@@ -607,6 +629,20 @@ pub fn build_case(p: &Profile, rc: RawCfg, raw_ops: Vec<RawOp>) -> Case {
                     // every third batch writes the same one or two keys repeatedly (a queued
                     // write superseded by another one before maintenance applies either),
                     // after making them popular enough to be admitted
+                    if n % 5 == 4 {
+                        // a queued read of a resident, a popular newcomer, and a queued update of
+                        // the key that was read, applied by one maintenance run
+                        let (a, b) = (kmap(items[0].0), kmap(items[1].0));
+                        for _ in 0..3 {
+                            push(&mut ops, Op::Get { k: b });
+                        }
+                        ops.push(Op::EnterBeyond);
+                        ops.push(Op::Get { k: a });
+                        ops.push(Op::Insert { k: b, w: wmap(b, items[1].1) });
+                        ops.push(Op::Insert { k: a, w: wmap(a, items[0].1) });
+                        ops.push(Op::Sync);
+                        continue;
+                    }
                     let repeat = n % 3 == 2;
                     if repeat {
                         for it in items.iter().take(2) {
@@ -617,6 +653,11 @@ pub fn build_case(p: &Profile, rc: RawCfg, raw_ops: Vec<RawOp>) -> Case {
                     let n = 2 + idx(n as u32, 256, 3) as usize;
                     for (i, (k, w)) in items.iter().take(n).enumerate() {
                         let k = kmap(if repeat { items[i % 2].0 } else { *k });
+                        if !repeat && *w % 4 == 3 {
+                            // a queued read among the queued writes
+                            ops.push(Op::Get { k });
+                            continue;
+                        }
                         ops.push(Op::Insert { k, w: wmap(k, *w) });
                     }
                     ops.push(Op::Sync);
